@@ -21,8 +21,10 @@ import (
 //                 exactly one region once with policyWeight == weight; every region member resident;
 //                 region len/count consistent.
 
-func c02Structure(w *bsWorld) (viol [][2]string) {
-	s := w.h.s
+func c02Structure(w *bsWorld) (viol [][2]string) { return c02StructureOf(w.h, w.cfg.MaxSize) }
+
+func c02StructureOf(h *hStore, maxSize int64) (viol [][2]string) {
+	s := h.s
 	p := s.policy
 	add := func(clause, detail string) { viol = append(viol, [2]string{clause, detail}) }
 	res := map[*Entry[int, int]]int{}
@@ -68,8 +70,8 @@ func c02Structure(w *bsWorld) (viol [][2]string) {
 			add("ttl-entry-not-scheduled", fmt.Sprintf("resident entry %d=%d has deadline %d but is not in the timer wheel (flags %b)", e.key, e.value, e.expire.Load(), e.flag.Flags))
 		}
 	}
-	if sum > int64(w.cfg.MaxSize) {
-		add("over-capacity", fmt.Sprintf("Σcost(resident) = %d > MaxSize %d", sum, w.cfg.MaxSize))
+	if sum > maxSize {
+		add("over-capacity", fmt.Sprintf("Σcost(resident) = %d > MaxSize %d", sum, maxSize))
 	}
 	if est := int64(p.window.Len() + p.slru.protected.Len() + p.slru.probation.Len()); est != sum {
 		add("estimated-size-mismatch", fmt.Sprintf("EstimatedSize %d != Σcost(resident) %d", est, sum))
@@ -153,5 +155,55 @@ func TestVerif_C02(t *testing.T) {
 	}
 }
 
-var _ = strings.Join
-var _ = vrt.On
+// ---- E1-ICB: interleavings inside the expiry path and the two-phase writes ----
+
+func c02IcbCheck(res *vh.Result, cfg *icCfg) func(r *icRun, x *vrt.Sched, cost int) {
+	return func(r *icRun, x *vrt.Sched, cost int) {
+		rp := map[string]any{"driver": cfg.Name, "choices": x.Choices()}
+		if len(r.stuck) > 0 || x.ErrKind == "deadlock" {
+			res.Violate("deadlock", strings.Join(r.stuck, ","), cfg.Name+": clients never finished "+x.Err+"\nhistory: "+r.history(), cost, rp)
+			return
+		}
+		var v [][2]string
+		vrt.Quiet(func() { v = c02StructureOf(r.h, cfg.O.MaxSize) })
+		var cl []string
+		for _, y := range v {
+			cl = append(cl, y[0])
+			res.Violate(y[0], "icb", fmt.Sprintf("%s (after Wait): %s\nhistory: %s\nlistener: %s", cfg.Name, y[1], r.history(), fmtNotes(r.h.notes)), cost, rp)
+		}
+		res.Outcome(fmt.Sprintf("%s|%v|%s|%d", cfg.Name, cl, fmtMap(r.final), len(r.h.notes)))
+		if res.NOutcomes() <= 2 {
+			res.Sample(map[string]any{"driver": cfg.Name, "history": r.history(), "schedule_len": len(x.Trace)})
+		}
+	}
+}
+
+func c02IcbDrivers() []*icCfg {
+	S := func(k int, c int64) icOp { return icOp{Kind: "set", K: k, Cost: c} }
+	T := func(k int, c int64, ttl int64) icOp { return icOp{Kind: "set", K: k, Cost: c, TTL: ttl} }
+	D := func(k int) icOp { return icOp{Kind: "del", K: k} }
+	tick := icOp{Kind: "tick", Arg: 2 * sec}
+	o := hOpts{MaxSize: 3, ChanSize: 2, BufSize: 2}
+	return []*icCfg{
+		{Name: "ttl-window", O: o, Pre: []icOp{T(1, 1, sec), {Kind: "wait"}}, Scripts: [][]icOp{{tick}, {T(1, 1, 90 * sec), S(1, 2)}}},
+		{Name: "ttl-window-new", O: o, Scripts: [][]icOp{{T(1, 1, sec), tick}, {T(1, 2, 90 * sec)}}},
+		{Name: "cost-updates", O: o, Pre: []icOp{S(2, 1)}, Scripts: [][]icOp{{S(1, 1), S(1, 3)}, {S(1, 2), D(2)}, {S(4, 1)}}},
+	}
+}
+
+func TestVerif_C02Icb(t *testing.T) {
+	env := vh.Env()
+	res := vh.NewResult("C02/icb", "E1-ICB", env)
+	defer res.Write()
+	for _, cfg := range c02IcbDrivers() {
+		if d := env.Params["driver"]; d != "" && d != cfg.Name {
+			continue
+		}
+		cfg.P, cfg.D = env.Int("P", 2), env.Int("D", 1)
+		cfg.EndWait = true
+		icExplore(res, env, cfg, c02IcbCheck(res, cfg))
+		if res.Error != "" {
+			return
+		}
+	}
+}
